@@ -1,8 +1,615 @@
-//! C17 — not built yet.
+//! C17 — YAML position tables under any access order (DESIGN §4 C17).
+//!
+//! `YamlIndex::from_parts` is given a synthetic BP (flat `10`*n mostly; fully
+//! nested and random balanced shapes too) and generated start/end tables; a
+//! generated history of the four public lookups is answered by ONE index
+//! instance and compared with the plain vectors. Both tables keep a sequential
+//! cursor in a `Cell`, so history dependence shows as a disagreement.
 use crate::engine::*;
+use serde_json::{json, Value};
+use std::collections::BTreeMap;
+use succinctly::yaml::YamlIndex;
 
-pub const RULE: &str = "not built";
+pub const RULE: &str = "tables for n nodes (0..=1500, thorough 60 000; biased to 0,1,63..65,255..257,511..513,1023..1025) over text_len (multiples of 64 and +-1, or free): starts non-decreasing with duplicate runs in [0,text_len] (classes: tail of nodes starting exactly at text_len, all-equal, strictly increasing, dense packing, sparse with >=24 empty 64-bit words between nodes) or non-monotone (dense fallback); ends 0 = none recorded, otherwise (strong mode) within [max(start,1), min start of later nodes] as the parser guarantees, or (weak mode) free in [1,text_len], monotone or not. BP shape flat/nested/random. History of 30..=160 lookups on ONE instance mixing bp_to_text_pos, bp_to_text_end_pos, text_pos_by_open_idx, text_end_pos_by_open_idx: sequential runs, gaps, backward jumps, repeats, random, indices >= n, usize::MAX; then (1 in 4) a full forward and backward sweep. Oracle: the plain vectors: start = Some(starts[i]) (None for i>=n); recorded end = Some(ends[i]); unrecorded end = None or an end recorded for an earlier node (strong mode: also <= starts[i]) and equal to what a pristine clone answers on one sequential pass. Non-trivial: n>=65 and the history has a backward jump and a repeat; distinct by hash(tables, text_len, history).";
+
+#[derive(Clone, Copy, Debug, PartialEq)]
+pub enum Op {
+    StartBp,
+    EndBp,
+    StartIdx,
+    EndIdx,
+}
+
+#[derive(Clone, Copy, Debug, PartialEq)]
+pub enum BpShape {
+    Flat,
+    Nested,
+    Random,
+}
+
+pub struct Case {
+    pub text_len: usize,
+    pub starts: Vec<u32>,
+    pub ends: Vec<u32>,
+    pub strong: bool,
+    pub shape: BpShape,
+    pub bp_words: Vec<u64>,
+    /// BP position of the i-th open
+    pub open_pos: Vec<usize>,
+    pub hist: Vec<(Op, usize)>,
+    pub sweep: bool,
+    pub start_class: &'static str,
+}
+
+fn gen_bp(u: &mut Src, n: usize, shape: BpShape) -> (Vec<u64>, Vec<usize>) {
+    let mut words = vec![0u64; (2 * n).div_ceil(64)];
+    let mut open_pos = Vec::with_capacity(n);
+    let set = |p: usize, words: &mut Vec<u64>| words[p / 64] |= 1u64 << (p % 64);
+    match shape {
+        BpShape::Flat => {
+            for i in 0..n {
+                set(2 * i, &mut words);
+                open_pos.push(2 * i);
+            }
+        }
+        BpShape::Nested => {
+            for i in 0..n {
+                set(i, &mut words);
+                open_pos.push(i);
+            }
+        }
+        BpShape::Random => {
+            let coins = u.bytes((2 * n).div_ceil(8).min(64));
+            let mut opens_left = n;
+            let mut excess = 0usize;
+            for p in 0..2 * n {
+                let coin = if coins.is_empty() { false } else { (coins[(p / 8) % coins.len()] >> (p % 8)) & 1 == 1 };
+                let open = opens_left > 0 && (excess == 0 || coin);
+                if open {
+                    set(p, &mut words);
+                    open_pos.push(p);
+                    opens_left -= 1;
+                    excess += 1;
+                } else {
+                    excess -= 1;
+                }
+            }
+        }
+    }
+    (words, open_pos)
+}
+
+fn gen_tables(u: &mut Src, max_n: usize) -> (usize, Vec<u32>, Vec<u32>, bool, &'static str) {
+    let n = u.len_biased(max_n, &[0, 1, 2, 63, 64, 65, 127, 128, 129, 255, 256, 257, 511, 512, 513, 1023, 1024, 1025]);
+    // text length
+    let base = match u.below(6) {
+        0 => u.range(0, 4),
+        1 => u.range(0, 40),
+        2 | 3 => u.range(0, 400),
+        _ => u.range(0, (n * 12).max(64) / 64 + 8),
+    } * 64;
+    let text_len = match u.below(8) {
+        0 | 1 | 2 => base,
+        3 => base + 1,
+        4 => base.saturating_sub(1),
+        5 => base + 63,
+        _ => base + u.range(0, 63),
+    };
+    let tl = text_len as u32;
+    // starts
+    let class = u.below(10);
+    let mut starts = Vec::with_capacity(n);
+    let name;
+    match class {
+        0 => {
+            name = "all-equal";
+            let p = *u.pick(&[0u32, tl, tl / 2, tl.saturating_sub(1)]);
+            starts.resize(n, p.min(tl));
+        }
+        1 => {
+            name = "strictly-increasing-packed";
+            // positions 0,1,2,... as far as the text allows, then pinned at text_len
+            for i in 0..n {
+                starts.push((i as u32).min(tl));
+            }
+        }
+        2 => {
+            name = "sparse";
+            // few nodes spread over the whole text: long runs of empty IB words
+            let step = (text_len / n.max(1)).max(1) as u32;
+            let mut p = u.range(0, step as usize) as u32;
+            for _ in 0..n {
+                starts.push(p.min(tl));
+                p = p.saturating_add(step + u.below(3) as u32);
+            }
+        }
+        _ => {
+            name = "runs";
+            // duplicate runs (containers share the position of their first child) with irregular gaps
+            let avg = ((text_len as f64 / n.max(1) as f64) * 2.0) as usize + 1;
+            let pat = u.bytes(n.min(128));
+            let mut p = if u.bool() { 0 } else { u.range(0, avg) as u32 };
+            for i in 0..n {
+                let b = if pat.is_empty() { 0 } else { pat[i % pat.len()].rotate_left((i / pat.len()) as u32 % 8) };
+                if b & 3 != 0 {
+                    p = p.saturating_add(((b >> 2) as usize % avg.max(1)) as u32 + (b & 1) as u32);
+                }
+                starts.push(p.min(tl));
+            }
+        }
+    }
+    // tail pinned at text_len (nodes that start at EOF: empty values)
+    if n > 0 && u.ratio(1, 3) {
+        let k = u.range(1, 3.min(n));
+        for s in starts.iter_mut().rev().take(k) {
+            *s = tl;
+        }
+    }
+    let mut name = name;
+    // non-monotone variant: swap / lower a few entries
+    if n >= 2 && u.ratio(1, 6) {
+        let k = u.range(1, 4);
+        for _ in 0..k {
+            let i = u.below(n);
+            let j = u.below(n);
+            starts.swap(i, j);
+        }
+        if starts.windows(2).any(|w| w[0] > w[1]) {
+            name = "non-monotone";
+        }
+    }
+    // ends
+    let strong = !u.ratio(1, 4);
+    let mut ends = vec![0u32; n];
+    let rec_pat = u.bytes(n.min(64));
+    let recorded = |i: usize| -> bool {
+        if rec_pat.is_empty() {
+            return false;
+        }
+        let b = rec_pat[i % rec_pat.len()].rotate_left((i / rec_pat.len()) as u32 % 8);
+        b % 5 >= 2 // ~60% scalars
+    };
+    if strong {
+        // suffix minimum of starts after i (text_len for the last node)
+        let mut sufmin = vec![tl; n + 1];
+        for i in (0..n).rev() {
+            sufmin[i] = sufmin[i + 1].min(starts[i]);
+        }
+        let tight = u.bool();
+        for i in 0..n {
+            if !recorded(i) {
+                continue;
+            }
+            let hi = sufmin[i + 1];
+            let lo = starts[i].max(1);
+            if hi == 0 || lo > hi {
+                continue; // no room for a non-empty extent: the parser records none
+            }
+            ends[i] = if tight || lo == hi {
+                hi
+            } else {
+                match rec_pat[i % rec_pat.len()] & 3 {
+                    0 => lo,
+                    1 => hi,
+                    _ => lo + (rec_pat[(i + 1) % rec_pat.len()] as u32) % (hi - lo + 1),
+                }
+            };
+        }
+    } else if tl >= 1 {
+        let mono = u.bool();
+        let mut p = 1u32;
+        for i in 0..n {
+            if !recorded(i) {
+                continue;
+            }
+            if mono {
+                p = p.saturating_add(u.below(4) as u32 * if u.ratio(1, 8) { 97 } else { 1 }).min(tl);
+                ends[i] = p;
+            } else {
+                ends[i] = u.range(1, text_len) as u32;
+            }
+        }
+        if n > 0 && u.bool() {
+            ends[n - 1] = tl;
+        }
+    }
+    (text_len, starts, ends, strong, name)
+}
+
+fn gen_history(u: &mut Src, n: usize) -> (Vec<(Op, usize)>, bool, bool) {
+    let nq = u.range(30, 160);
+    let mut h: Vec<(Op, usize)> = Vec::with_capacity(nq + 8);
+    let mut cur = [0usize; 2]; // last index asked of the start table / end table
+    let (mut back, mut rep) = (false, false);
+    let mut last_idx = [usize::MAX; 2];
+    let mut push = |h: &mut Vec<(Op, usize)>, op: Op, i: usize, back: &mut bool, rep: &mut bool| {
+        let t = matches!(op, Op::EndBp | Op::EndIdx) as usize;
+        if last_idx[t] != usize::MAX {
+            if i == last_idx[t] {
+                *rep = true;
+            } else if i < last_idx[t] {
+                *back = true;
+            }
+        }
+        last_idx[t] = i;
+        h.push((op, i));
+    };
+    let pick_op = |u: &mut Src, end: bool| -> Op {
+        match (end, u.bool()) {
+            (false, false) => Op::StartIdx,
+            (false, true) => Op::StartBp,
+            (true, false) => Op::EndIdx,
+            (true, true) => Op::EndBp,
+        }
+    };
+    while h.len() < nq {
+        let end = u.bool();
+        let t = end as usize;
+        match u.below(12) {
+            0..=3 => {
+                // sequential run, optionally asking both tables for each node (what value() does)
+                let both = u.bool();
+                let len = u.range(1, 40);
+                let mut i = cur[t];
+                for _ in 0..len {
+                    let op = pick_op(u, end);
+                    push(&mut h, op, i, &mut back, &mut rep);
+                    if both {
+                        let op2 = pick_op(u, !end);
+                        push(&mut h, op2, i, &mut back, &mut rep);
+                    }
+                    i += 1;
+                }
+                cur[t] = i;
+                if both {
+                    cur[1 - t] = i;
+                }
+            }
+            4 | 5 => {
+                // forward gap
+                let g = if u.ratio(1, 3) { u.range(2, 700) } else { u.range(2, 6) };
+                cur[t] = cur[t].saturating_add(g).min(n + 3);
+                let op = pick_op(u, end);
+                push(&mut h, op, cur[t], &mut back, &mut rep);
+                cur[t] += 1;
+            }
+            6 | 7 => {
+                // backward jump
+                let i = match u.below(4) {
+                    0 => 0,
+                    1 => cur[t].saturating_sub(u.range(1, 3)),
+                    2 => cur[t].saturating_sub(u.range(1, 300)),
+                    _ => u.range(0, cur[t]),
+                };
+                let op = pick_op(u, end);
+                push(&mut h, op, i, &mut back, &mut rep);
+                cur[t] = i + 1;
+            }
+            8 => {
+                // repeat the previous index of this table
+                let i = cur[t].saturating_sub(1);
+                let op = pick_op(u, end);
+                let k = u.range(1, 3);
+                for _ in 0..k {
+                    push(&mut h, op, i, &mut back, &mut rep);
+                }
+            }
+            9 => {
+                let i = u.range(0, n + 2);
+                let op = pick_op(u, end);
+                push(&mut h, op, i, &mut back, &mut rep);
+                cur[t] = i + 1;
+            }
+            10 => {
+                // around the end / sample boundaries
+                let i = *u.pick(&[n.saturating_sub(1), n, n + 1, 255, 256, 257, 63, 64, 65, 511, 512]);
+                let op = pick_op(u, end);
+                push(&mut h, op, i, &mut back, &mut rep);
+                cur[t] = i.saturating_add(1);
+            }
+            _ => {
+                // far out of range (open-index forms only: a BP position must be < 2^32)
+                let i = *u.pick(&[usize::MAX, usize::MAX - 1, 1usize << 40, n + 100_000]);
+                let op = if end { Op::EndIdx } else { Op::StartIdx };
+                push(&mut h, op, i, &mut back, &mut rep);
+            }
+        }
+    }
+    (h, back, rep)
+}
+
+fn gen_case(u: &mut Src, max_n: usize) -> (Case, bool, bool) {
+    let (text_len, starts, ends, strong, start_class) = gen_tables(u, max_n);
+    let n = starts.len();
+    let shape = match u.below(8) {
+        0 => BpShape::Nested,
+        1 => BpShape::Random,
+        _ => BpShape::Flat,
+    };
+    let (bp_words, open_pos) = gen_bp(u, n, shape);
+    let (hist, back, rep) = gen_history(u, n);
+    let sweep = u.ratio(1, 4);
+    (Case { text_len, starts, ends, strong, shape, bp_words, open_pos, hist, sweep, start_class }, back, rep)
+}
+
+pub fn build_index(c: &Case) -> YamlIndex {
+    let n = c.starts.len();
+    let ib_words = c.text_len.div_ceil(64);
+    // the index's own IB: one bit per distinct start (what the parser writes); not read by the lookups under test
+    let mut ib = vec![0u64; ib_words];
+    for &s in &c.starts {
+        let s = s as usize;
+        if s / 64 < ib.len() {
+            ib[s / 64] |= 1u64 << (s % 64);
+        }
+    }
+    YamlIndex::from_parts(
+        ib,
+        c.text_len,
+        c.bp_words.clone(),
+        2 * n,
+        Vec::new(),
+        0,
+        c.starts.clone(),
+        c.ends.clone(),
+        vec![0u64; c.bp_words.len()],
+        BTreeMap::new(),
+        BTreeMap::new(),
+        BTreeMap::new(),
+    )
+}
+
+fn op_name(op: Op) -> &'static str {
+    match op {
+        Op::StartBp => "bp_to_text_pos",
+        Op::EndBp => "bp_to_text_end_pos",
+        Op::StartIdx => "text_pos_by_open_idx",
+        Op::EndIdx => "text_end_pos_by_open_idx",
+    }
+}
+
+fn ask(idx: &YamlIndex, c: &Case, op: Op, i: usize) -> Option<usize> {
+    let n = c.starts.len();
+    // BP position of node i; one-past-the-end positions for i >= n ("invalid position" -> None)
+    let bp = |i: usize| if i < n { c.open_pos[i] } else { 2 * n + (i - n) };
+    match op {
+        Op::StartBp => idx.bp_to_text_pos(bp(i)),
+        Op::EndBp => idx.bp_to_text_end_pos(bp(i)),
+        Op::StartIdx => idx.text_pos_by_open_idx(i),
+        Op::EndIdx => idx.text_end_pos_by_open_idx(i),
+    }
+}
+
+pub fn check_case(c: &Case, st: &mut Stats) -> Result<(), Fail> {
+    let n = c.starts.len();
+    let idx = build_index(c);
+    let starts_monotone = c.starts.windows(2).all(|w| w[0] <= w[1]);
+    // canonical answers for unrecorded ends: a pristine clone, one sequential pass
+    let has_unrecorded = c.ends.iter().any(|&e| e == 0);
+    let canon: Vec<Option<usize>> = if has_unrecorded {
+        let fresh = idx.clone();
+        (0..n).map(|i| fresh.text_end_pos_by_open_idx(i)).collect()
+    } else {
+        vec![]
+    };
+    let mut deferred: Option<Fail> = None;
+    let tables = || {
+        json!({"text_len": c.text_len, "n": n, "bp_shape": format!("{:?}", c.shape), "strong_mode": c.strong,
+               "starts": c.starts.iter().take(300).collect::<Vec<_>>(), "ends": c.ends.iter().take(300).collect::<Vec<_>>()})
+    };
+    let mut one = |op: Op, i: usize, qi: usize, phase: &str, hist: &[(Op, usize)]| -> Result<(), Fail> {
+        let act = ask(&idx, c, op, i);
+        st.evals(1);
+        let lo = qi.saturating_sub(5).min(hist.len());
+        let hi = qi.min(hist.len());
+        let ctx = || {
+            json!({"api": op_name(op), "node": i, "phase": phase, "query_index": qi,
+                   "previous_queries": hist[lo..hi].iter().map(|(o, j)| json!([op_name(*o), j])).collect::<Vec<_>>(),
+                   "tables": tables()})
+        };
+        match op {
+            Op::StartBp | Op::StartIdx => {
+                let exp = c.starts.get(i).map(|&s| s as usize);
+                if exp != act {
+                    // known-finding shape: compact storage, start == text_len, text_len a multiple of 64, read back as None
+                    if starts_monotone && exp == Some(c.text_len) && c.text_len % 64 == 0 && act.is_none() {
+                        if deferred.is_none() {
+                            deferred = Some(Fail::new(
+                                "C17/start-lookup/compact/start==text_len&&text_len%64==0/None",
+                                json!({"case": ctx(), "expected": format!("{:?}", exp), "actual": "None"}),
+                            ));
+                        }
+                        return Ok(());
+                    }
+                    let storage = if starts_monotone { "compact" } else { "dense" };
+                    fail!(format!("C17/start-lookup/{}/{}", storage, op_name(op)), {"case": ctx(), "expected": format!("{:?}", exp), "actual": format!("{:?}", act)});
+                }
+            }
+            Op::EndBp | Op::EndIdx => {
+                if i >= n {
+                    check_eq!(format!("C17/end-lookup/past-the-end/{}", op_name(op)), None::<usize>, act, {"case": ctx()});
+                } else if c.ends[i] > 0 {
+                    check_eq!(format!("C17/end-lookup/recorded/{}", op_name(op)), Some(c.ends[i] as usize), act, {"case": ctx()});
+                } else {
+                    if let Some(e) = act {
+                        let earlier = c.ends[..i].iter().any(|&x| x > 0 && x as usize == e);
+                        if !earlier {
+                            fail!(format!("C17/end-lookup/unrecorded/not-an-earlier-end/{}", op_name(op)), {"case": ctx(), "actual": e});
+                        }
+                        if c.strong && e > c.starts[i] as usize {
+                            fail!(format!("C17/end-lookup/unrecorded/inherited-end-after-own-start/{}", op_name(op)), {"case": ctx(), "actual": e, "start": c.starts[i]});
+                        }
+                    }
+                    if act != canon[i] {
+                        fail!(format!("C17/end-lookup/unrecorded/history-dependent/{}", op_name(op)), {"case": ctx(), "fresh_sequential_answer": format!("{:?}", canon[i]), "actual": format!("{:?}", act)});
+                    }
+                }
+            }
+        }
+        Ok(())
+    };
+    for (qi, &(op, i)) in c.hist.iter().enumerate() {
+        one(op, i, qi, "history", &c.hist)?;
+    }
+    if c.sweep {
+        let hl = c.hist.len();
+        for i in 0..n + 2 {
+            one(Op::StartIdx, i, hl, "sweep-forward", &c.hist)?;
+            one(Op::EndIdx, i, hl, "sweep-forward", &c.hist)?;
+        }
+        for i in (0..n + 1).rev() {
+            one(Op::EndBp, i, hl, "sweep-backward", &c.hist)?;
+            one(Op::StartBp, i, hl, "sweep-backward", &c.hist)?;
+        }
+        // strided: every 3rd backwards with a forward probe in between
+        let mut i = n;
+        while i >= 3 {
+            i -= 3;
+            one(Op::StartIdx, i, hl, "sweep-stride", &c.hist)?;
+            one(Op::StartIdx, i + 2, hl, "sweep-stride", &c.hist)?;
+            one(Op::EndIdx, i + 1, hl, "sweep-stride", &c.hist)?;
+        }
+    }
+    drop(one);
+    if let Some(f) = deferred {
+        return Err(f);
+    }
+    Ok(())
+}
+
+fn describe(c: &Case) -> Value {
+    json!({"text_len": c.text_len, "bp_shape": format!("{:?}", c.shape), "bp_words_hex": c.bp_words.iter().take(200).map(|w| format!("{:016x}", w)).collect::<Vec<_>>(),
+           "strong_mode": c.strong, "starts": c.starts, "ends": c.ends,
+           "history": c.hist.iter().map(|(o, i)| json!([op_name(*o), i])).collect::<Vec<_>>(), "then_sweep": c.sweep,
+           "construction": "YamlIndex::from_parts(ib, text_len, bp_words, 2n, [], 0, starts, ends, zeros, {}, {}, {}); node i is the i-th open of the BP"})
+}
+
+/// Structured replay: {"text_len":..,"starts":[..],"ends":[..],"history":[[api,node],..]} (flat BP)
+fn replay_input(v: &Value) -> Option<Fail> {
+    let inp = &v["input"];
+    let arr = |k: &str| -> Vec<u32> { inp[k].as_array().map(|a| a.iter().map(|x| x.as_u64().unwrap_or(0) as u32).collect()).unwrap_or_default() };
+    let starts = arr("starts");
+    let mut ends = arr("ends");
+    ends.resize(starts.len(), 0);
+    let n = starts.len();
+    let mut hist = vec![];
+    for q in inp["history"].as_array().cloned().unwrap_or_default() {
+        let op = match q[0].as_str().unwrap_or("") {
+            "bp_to_text_pos" => Op::StartBp,
+            "bp_to_text_end_pos" => Op::EndBp,
+            "text_end_pos_by_open_idx" => Op::EndIdx,
+            _ => Op::StartIdx,
+        };
+        hist.push((op, q[1].as_u64().unwrap_or(0) as usize));
+    }
+    let mut src = Src::new(&[]);
+    let (bp_words, open_pos) = gen_bp(&mut src, n, BpShape::Flat);
+    let c = Case {
+        text_len: inp["text_len"].as_u64().unwrap_or(0) as usize,
+        starts,
+        ends,
+        strong: inp["strong_mode"].as_bool().unwrap_or(true),
+        shape: BpShape::Flat,
+        bp_words,
+        open_pos,
+        hist,
+        sweep: inp["then_sweep"].as_bool().unwrap_or(false),
+        start_class: "replay",
+    };
+    let mut st = Stats::default();
+    match catch(|| check_case(&c, &mut st)) {
+        Ok(Ok(())) => None,
+        Ok(Err(f)) => Some(f),
+        Err((loc, msg)) => Some(Fail::new(format!("panic@{}", panic_sig(&loc)), json!({"panic": msg, "location": loc}))),
+    }
+}
+
+/// The same shape through the real parser: a document whose last node (an
+/// empty mapping value) starts exactly at EOF.
+fn replay_yaml_text(v: &Value) -> Option<Fail> {
+    let text = v["input"]["yaml"].as_str().unwrap_or("").as_bytes().to_vec();
+    let r = catch(|| {
+        let idx = match YamlIndex::build(&text) {
+            Ok(i) => i,
+            Err(e) => return Err(Fail::new("C17/replay/yaml-build-error", json!({"error": format!("{:?}", e)}))),
+        };
+        let n = idx.bp().total_ones();
+        let pos: Vec<Option<usize>> = (0..n).map(|i| idx.text_pos_by_open_idx(i)).collect();
+        if let Some(i) = pos.iter().position(|p| p.is_none()) {
+            if text.len() % 64 == 0 && i + 1 == n {
+                return Err(Fail::new(
+                    "C17/start-lookup/compact/start==text_len&&text_len%64==0/None",
+                    json!({"yaml": String::from_utf8_lossy(&text), "text_len": text.len(), "positions": format!("{:?}", pos), "note": "every parsed node has a start position; the last node (empty value at EOF) reads back None"}),
+                ));
+            }
+            return Err(Fail::new("C17/replay/parsed-node-without-start", json!({"positions": format!("{:?}", pos)})));
+        }
+        Ok(())
+    });
+    match r {
+        Ok(Ok(())) => None,
+        Ok(Err(f)) => Some(f),
+        Err((loc, msg)) => Some(Fail::new(format!("panic@{}", panic_sig(&loc)), json!({"panic": msg, "location": loc}))),
+    }
+}
 
 pub fn run(cx: &mut Ctx) {
-    cx.infra("check not built");
+    cx.assume("reference model: the generated Vec<u32> tables themselves (harness code); unrecorded ends additionally compared with one sequential pass over a pristine clone of the same index (history independence)");
+    cx.assume("domain: starts and ends within [0, text_len] (what the parser can write); BP positions passed to bp_to_* are open parentheses or positions at/after bp_len");
+    for (name, v) in cx.replays.clone() {
+        if v["kind"] == "input" {
+            let r = if v["input"].get("yaml").is_some() { replay_yaml_text(&v) } else { replay_input(&v) };
+            cx.replay_outcome(&name, r);
+        }
+    }
+    let max_n = if cx.tier == Tier::Quick { 1500 } else { 60_000 };
+    cx.check(
+        "tables-vs-vectors",
+        RULE,
+        Budget { quick: 1_200_000, thorough: 1_500_000, max_len: 1400 },
+        |u, st| {
+            let (c, back, rep) = gen_case(u, max_n);
+            let n = c.starts.len();
+            let mono_s = c.starts.windows(2).all(|w| w[0] <= w[1]);
+            let nz: Vec<u32> = c.ends.iter().copied().filter(|&e| e > 0).collect();
+            let mono_e = nz.windows(2).all(|w| w[0] <= w[1]);
+            let nt = n >= 65 && back && rep;
+            if nt {
+                let mut h = hash_bytes(&c.starts.iter().flat_map(|x| x.to_le_bytes()).collect::<Vec<u8>>());
+                h = mix64(h ^ hash_bytes(&c.ends.iter().flat_map(|x| x.to_le_bytes()).collect::<Vec<u8>>()));
+                h = mix64(h ^ c.text_len as u64);
+                for (o, i) in &c.hist {
+                    h = mix64(h ^ ((*o as u64) << 60) ^ *i as u64);
+                }
+                st.nontrivial(h);
+            }
+            st.class_if(nt, "nontrivial");
+            st.class(if mono_s { "starts-compact" } else { "starts-dense-fallback" });
+            st.class(if mono_e { "ends-compact" } else { "ends-dense-fallback" });
+            st.class(if c.strong { "ends-strong-invariant" } else { "ends-free" });
+            st.class(&format!("starts-{}", c.start_class));
+            st.class(&format!("bp-{:?}", c.shape));
+            let at_eof = c.starts.iter().any(|&s| s as usize == c.text_len);
+            st.class_if(at_eof, "start==text_len");
+            st.class_if(at_eof && c.text_len % 64 == 0, "start==text_len&&text_len%64==0");
+            st.class_if(at_eof && c.text_len % 64 != 0, "start==text_len&&text_len%64!=0");
+            st.class_if(c.ends.iter().any(|&e| e as usize == c.text_len && e > 0), "end==text_len");
+            st.class_if(c.text_len % 64 == 0, "text_len%64==0");
+            st.class_if(n >= 65, "n>=65");
+            st.class_if(n > 256, "n>256");
+            st.class_if(c.starts.windows(2).any(|w| w[1] / 64 >= w[0] / 64 + 24), "gap>=24-empty-words");
+            st.class_if(c.ends.iter().any(|&e| e == 0) && nz.len() > 0, "has-unrecorded-ends");
+            st.class_if(back, "hist-backward");
+            st.class_if(rep, "hist-repeat");
+            st.class_if(c.sweep, "full-sweep");
+            st.size(n);
+            let cls = if !mono_s { "dense" } else if at_eof { "eof" } else { "compact" };
+            st.sample(cls, || json!({"n": n, "text_len": c.text_len, "starts_head": c.starts.iter().take(12).collect::<Vec<_>>(), "starts_tail": c.starts.iter().rev().take(4).collect::<Vec<_>>(), "ends_head": c.ends.iter().take(12).collect::<Vec<_>>(), "strong": c.strong, "bp": format!("{:?}", c.shape), "history_head": c.hist.iter().take(8).map(|(o, i)| json!([op_name(*o), i])).collect::<Vec<_>>()}));
+            st.describe(|| describe(&c));
+            check_case(&c, st)
+        },
+    );
+    for cl in ["nontrivial", "starts-compact", "starts-dense-fallback", "ends-compact", "ends-dense-fallback", "ends-strong-invariant", "ends-free", "start==text_len&&text_len%64==0", "start==text_len&&text_len%64!=0", "end==text_len", "n>256", "gap>=24-empty-words", "has-unrecorded-ends", "bp-Nested", "bp-Random", "full-sweep"] {
+        cx.require_class("tables-vs-vectors", cl, 20);
+    }
 }
